@@ -24,7 +24,17 @@ func c01RecordIteration(_ *metrics.Metrics, _ string, r metrics.ResultType, _ in
 //verif:conc
 //verif:timeout 120
 //verif:replace (*$M/internal/metrics.Metrics).RecordIterationResult c01RecordIteration
-func VerifC01_OffGoroutineFailClassifiedOnce() {
+func VerifC01_OffGoroutineFailClassifiedOnce() { c01LateFail() }
+
+// VerifC16_OffGoroutineFailLabel: the same harness under C16: the result label of the exported iteration sample is
+// the outcome counted in the result, also when the T is failed from a helper goroutine at an arbitrary moment.
+//
+//verif:conc
+//verif:timeout 120
+//verif:replace (*$M/internal/metrics.Metrics).RecordIterationResult c01RecordIteration
+func VerifC16_OffGoroutineFailLabel() { c01LateFail() }
+
+func c01LateFail() {
 	c01Recorded = nil
 	stats := &progress.Stats{}
 	sc := &scenarios.Scenario{Name: "scn"}
